@@ -1,7 +1,7 @@
 #!/usr/bin/env python3
 """Copy the verifier's own confirmation (confirm.json, written by tools/confirm_seed.py) into each seed's meta.json."""
 import glob, json, os
-ROUND = {'a': 1, 'b': 1, 'c': 2, 'd': 2, 'e': 3, 'f': 3, 'g': 4, 'h': 4}
+ROUND = {'a': 1, 'b': 1, 'c': 2, 'd': 2, 'e': 3, 'f': 3, 'g': 4, 'h': 4, 'i': 5, 'j': 5}
 NOTES = {
     'C15/f': "independence caveat: this agent's report quotes /verif's commit log (it looked at it against its instructions), so the change was "
              "written with knowledge of L-CLONE's first version (impls reached by protocol flows only); kept because it is a valid break and led to the clone root",
